@@ -13,6 +13,7 @@
 //       Membership in the result is decided by evaluating the result's constraints()/congruences() exactly on the point.
 //       Grids: additionally, for a single wrapped variable, the documented rule (definitions.dox, Grid_Wrapping_Operator) is
 //       checked as a sandwich  rule(L /\ {x_j integer}) <= result <= rule(L)  on the exact lattice model rl::Grid.
+//       All non-grid domains also: <dom>.wrap.range, the wrapped dimensions of a non-empty result lie in [min, max+1) (precision).
 //   (2) drop_some_non_integer_points (all dims / a Variables_Set; each Complexity_Class): result included in the argument
 //       (refgeom inclusion / cover), every sample of the argument with integer coordinates on the designated dims kept;
 //       grids: exactly  L /\ {x_j integer, j designated}.
@@ -30,7 +31,7 @@
 //             running product of quadrant counts first exceeds the complexity threshold is neither translated nor given the
 //             full range (it is left unwrapped).  Class: !individually, wraps, some (disjunct of the) argument where, scanning
 //             vars in increasing order, a bounded variable not inside quadrant 0 with count <= threshold makes the product
-//             exceed the threshold.  Skips <dom>.wrap.contains for polyhedra, BD shapes, octagons, powersets.
+//             exceed the threshold.  Skips <dom>.wrap.contains and <dom>.wrap.range for polyhedra, BD shapes, octagons, powersets.
 //   KF-C17-2  Box::wrap_assign with a guard (Box_templates.hh:1844-1876) intersects intervals without resetting the cached
 //             emptiness flag: an emptied box stays marked non-empty and fails OK().  Class: box, guard given, overflow wraps or
 //             impossible, result empty.  Skips qbox/dbox.wrap.ok.
@@ -77,7 +78,7 @@
 #include "reflattice_x.hh"
 #include "interfaces/interfaced_boxes.hh"
 
-const vf::Info vf_info = { "C17", "c17_wrap", 2.5 };
+const vf::Info vf_info = { "C17", "c17_wrap", 4.0 };
 
 using namespace vf;
 typedef mpz_class Z;
@@ -393,6 +394,7 @@ void run_generic(Ctx& c, const std::string& dom, const Flags& F) {
   Tape& t = c.t;
   const size_t n = (size_t) t.range(1, 3);
   Spec s = gen_spec(c, n, max_w_index, strict_ok);
+  const bool drop_all = t.chance(50); const long drop_cc = t.range(0, 2), drop_mask = t.range(0, (1L << n) - 1);    // drawn early: the samplers may exhaust the tape
   std::vector<std::vector<RCon> > pieces; size_t np = powerset ? (size_t) t.range(1, 3) : 1;
   for (size_t k = 0; k < np; ++k) pieces.push_back(gen_arg(c, s, style, strict_ok));
   c.log << dom << " dim " << n << "\n";
@@ -450,11 +452,11 @@ void run_generic(Ctx& c, const std::string& dom, const Flags& F) {
 
   // ---- (2) drop_some_non_integer_points
   {
-    D d(arg); bool all = t.chance(50); std::vector<size_t> dims;
+    D d(arg); bool all = drop_all; std::vector<size_t> dims;
     static const Complexity_Class CC[] = { ANY_COMPLEXITY, SIMPLEX_COMPLEXITY, POLYNOMIAL_COMPLEXITY };
-    Complexity_Class cc = CC[t.range(0, 2)];
+    Complexity_Class cc = CC[drop_cc];
     if (all) { for (size_t j = 0; j < n; ++j) dims.push_back(j); d.drop_some_non_integer_points(cc); }
-    else { long mask = t.range(0, (1L << n) - 1); Variables_Set vs; for (size_t j = 0; j < n; ++j) if (mask & (1L << j)) { dims.push_back(j); vs.insert(Variable(j)); } d.drop_some_non_integer_points(vs, cc); }
+    else { long mask = drop_mask; Variables_Set vs; for (size_t j = 0; j < n; ++j) if (mask & (1L << j)) { dims.push_back(j); vs.insert(Variable(j)); } d.drop_some_non_integer_points(vs, cc); }
     c.log << "drop_some_non_integer_points(" << (all ? "all" : "{"); if (!all) { for (size_t i = 0; i < dims.size(); ++i) c.log << (i ? "," : "") << "x" << dims[i]; c.log << "}"; } c.log << ", " << cc_name(cc) << ")\n";
     c.check(dom + ".drop.ok", d.OK(), "drop_some_non_integer_points: result fails OK()");
     std::vector<Sys> res = model_of(d, n);
@@ -535,12 +537,16 @@ void run_grid(Ctx& c) {
   Tape& t = c.t; const std::string dom = "grid";
   const size_t n = (size_t) t.range(1, 3);
   Spec s = gen_spec(c, n, 3, false);
+  const bool drop_all = t.chance(50); const long drop_cc = t.range(0, 2), drop_mask = t.range(0, (1L << n) - 1);
   // congruences
   std::vector<GCong> cgs; int k = t.weighted({10, 40, 35, 15});
   for (int i = 0; i < k; ++i) {
     GCong g; g.e = LE(n);
     for (size_t j = 0; j < n; ++j) g.e.a[j] = t.weighted({35, 65}) == 0 ? 0 : t.range(-3, 3);
     if (g.e.all_zero()) g.e.a[t.range(0, (long) n - 1)] = 1;
+    if (s.V.size() >= 2 && t.chance(8)) {     // an equality tying two wrapped variables with a fractional offset (no point integer on both)
+      g.e = LE(n); long a = t.range(2, 3); g.e.a[s.V[0]] = a; g.e.a[s.V[1]] = t.chance(50) ? a : -a; g.e.b = a * t.range(-3, 3) + t.range(1, a - 1); g.m = 0; cgs.push_back(g);
+      GCong h; h.e = LE(n); h.e.a[s.V[0]] = t.chance(50) ? a : 1; h.e.b = t.range(-5, 5); h.m = t.chance(50) ? Z(7) : Z(s.M + 1); cgs.push_back(h); continue; }
     if (t.chance(12)) { g.e = LE(n); g.e.a[s.V[t.range(0, (long) s.V.size() - 1)]] = 1; g.e.b = -(s.M * t.range(-2, 2) + s.mn + gen_off(t, s.M)); g.m = t.chance(50) ? Z(0) : s.M; cgs.push_back(g); continue; }
     switch (t.weighted({30, 30, 20, 20})) { case 0: g.e.b = t.range(-5, 5); break; case 1: g.e.b = t.range(-300, 300); break; case 2: g.e.b = -(s.mn + gen_off(t, s.M)); break; default: g.e.b = s.M * t.range(-2, 2) + t.range(-3, 3); }
     switch (t.weighted({22, 8, 10, 8, 8, 12, 8, 8, 8, 8})) {
@@ -639,11 +645,11 @@ void run_grid(Ctx& c) {
 
   // ---- (2) drop
   {
-    Grid d(arg); bool all = t.chance(50); std::vector<size_t> dims;
+    Grid d(arg); bool all = drop_all; std::vector<size_t> dims;
     static const Complexity_Class CC[] = { ANY_COMPLEXITY, SIMPLEX_COMPLEXITY, POLYNOMIAL_COMPLEXITY };
-    Complexity_Class cc = CC[t.range(0, 2)];
+    Complexity_Class cc = CC[drop_cc];
     if (all) { for (size_t j = 0; j < n; ++j) dims.push_back(j); d.drop_some_non_integer_points(cc); }
-    else { long mask = t.range(0, (1L << n) - 1); Variables_Set vs; for (size_t j = 0; j < n; ++j) if (mask & (1L << j)) { dims.push_back(j); vs.insert(Variable(j)); } d.drop_some_non_integer_points(vs, cc); }
+    else { long mask = drop_mask; Variables_Set vs; for (size_t j = 0; j < n; ++j) if (mask & (1L << j)) { dims.push_back(j); vs.insert(Variable(j)); } d.drop_some_non_integer_points(vs, cc); }
     c.log << "drop_some_non_integer_points(" << (all ? "all" : "vars") << " #" << dims.size() << ", " << cc_name(cc) << ")\n";
     c.check(dom + ".drop.ok", d.OK(), "drop_some_non_integer_points: result fails OK()");
     rl::Grid R = grid_from_ppl(d, n), E(L);
